@@ -145,6 +145,24 @@ func (g *c05) optList(stored, written proto.Message, resw *fieldmaskpb.FieldMask
 		}
 		opts = append(opts, o)
 	}
+	// the same kind of option twice (with other paths) is where "last wins" / "all of them count" / "only
+	// the ones after the update mask count" differ from their broken variants
+	if len(opts) > 0 && r.Chance(45) {
+		first := opts[r.Intn(len(opts))]
+		again := wopt{kind: first.kind}
+		switch first.kind {
+		case "update", "more-update", "reset":
+			again.mask = &fieldmaskpb.FieldMask{Paths: somePaths(true)}
+		case "more-writable":
+			again.mask = &fieldmaskpb.FieldMask{Paths: somePaths(false)}
+		case "update-paths", "more-update-paths", "reset-paths":
+			again.paths = somePaths(true)
+		case "more-writable-paths":
+			again.paths = somePaths(false)
+		}
+		i := r.Intn(len(opts) + 1)
+		opts = append(opts[:i], append([]wopt{again}, opts[i:]...)...)
+	}
 	// what the options MEAN, computed here independently of the library: the last update option and the
 	// more-update options after it; the last reset option
 	var effUpdate []string
